@@ -6,7 +6,8 @@ import re
 from .core import rule
 from .model import AnalysisError, dotted, norm, walk_own
 from .paths import Parents, guards_of, np_atom, strip_not, flat_guards
-from .pat import has, find, first, name_of
+from .pat import has, find, first, name_of, match, _parse
+from .norm import view, builders
 
 
 # ------------------------------------------------------------------ helpers
@@ -58,7 +59,9 @@ def top_level_unconditional(func, node):
         return False
     idx = func.body.index(node)
     for prev in func.body[:idx]:
-        for x in ast.walk(prev):
+        if isinstance(prev, (ast.FunctionDef, ast.AsyncFunctionDef, ast.ClassDef)):
+            continue
+        for x in walk_own([prev]):
             if isinstance(x, ast.Return):
                 return False
     return True
@@ -177,38 +180,49 @@ def t2(ctx, res):
     # ObjectMeta.__new__ slot agreement
     new = ctx.func("ObjectMeta.__new__")
     slots = kwonly(new)
-    lambdas = {}
+    from .paths import decision_table as _dt, enumerate_paths as _ep
+    helpers = {}  # name -> Func (nested def or lambda bound to a local)
+    for g in new.nested.values():
+        helpers[g.name] = g
     for st in new.body:
         if isinstance(st, ast.Assign) and len(st.targets) == 1 and isinstance(st.targets[0], ast.Name) \
                 and isinstance(st.value, ast.Lambda):
-            lambdas[st.targets[0].id] = st.value
-    for g in new.nested.values():
-        lambdas[g.name] = g.node
+            for g in new.lambdas:
+                if g.node is st.value:
+                    helpers[st.targets[0].id] = g
     inherit_fns = set()   # helpers f(value, attr): value if passed else inherited attr
     lookup_fns = set()    # helpers f(attr, default): getattr(cls, attr, default)
-    for name, lam in lambdas.items():
-        if not isinstance(lam, ast.Lambda):
+    for name, g in helpers.items():
+        args = [p.name for p in g.params]
+        rets = [p for p in _ep(g.body) if p.exit == "return"]
+        if len(args) == 2 and len(rets) == 1 and not rets[0].conds:
+            e = rets[0].exit_node.value
+            if isinstance(e, ast.Call) and dotted(e.func) == "getattr" and len(e.args) == 3 and norm(e.args[0]) == "cls" \
+                    and norm(e.args[1]) == args[0] and norm(e.args[2]) == args[1]:
+                lookup_fns.add(name)
+    for name, g in helpers.items():
+        args = [p.name for p in g.params]
+        if len(args) != 2:
             continue
-        args = [a.arg for a in lam.args.args]
-        body = lam.body
-        if len(args) == 2 and isinstance(body, ast.Call) and dotted(body.func) == "getattr" and len(body.args) == 3 \
-                and norm(body.args[1]) == args[0] and norm(body.args[2]) == args[1]:
-            lookup_fns.add(name)
-    for name, lam in lambdas.items():
-        if not isinstance(lam, ast.Lambda):
-            continue
-        args = [a.arg for a in lam.args.args]
-        body = lam.body
-        if len(args) == 2 and isinstance(body, ast.IfExp):
-            a = np_atom(body.test)
-            if a and a[0] == args[0]:
-                passed_branch, inherit_branch = (body.orelse, body.body) if a[1] else (body.body, body.orelse)
-                if norm(passed_branch) == args[0] and isinstance(inherit_branch, ast.Call) \
-                        and dotted(inherit_branch.func) in lookup_fns and inherit_branch.args \
-                        and norm(inherit_branch.args[0]) == args[1]:
-                    inherit_fns.add(name)
-    if not inherit_fns or not lookup_fns:
-        raise AnalysisError("ObjectMeta.__new__: the inherit/lookup helper lambdas are no longer recognisable")
+
+        def rec(e, a0=args[0]):
+            a = np_atom(e)
+            if a and a[0] == a0:
+                return ("NP", a[1])
+            return None
+
+        def classify(p, args=args):
+            if p.exit != "return":
+                return p.exit
+            e = p.exit_node.value
+            if norm(e) == args[0]:
+                return "passed"
+            if isinstance(e, ast.Call) and dotted(e.func) in lookup_fns and e.args and norm(e.args[0]) == args[1]:
+                return "inherited"
+            return "other"
+        tbl, opq = _dt(g.body, ["NP"], rec, classify)
+        if not opq and tbl == {(True,): {"inherited"}, (False,): {"passed"}}:
+            inherit_fns.add(name)
     for p in slots:
         n_params += 1
         ok = False
@@ -725,13 +739,17 @@ def t6(ctx, res):
         okr = has(f"{rn} = set(MV_s.get('required', MV__))", pp) or has(f"{rn} = MV_s.get('required', MV__)", pp)
     res.check(okr, pp, "_Property(..., required=key in required, source=key)",
               reason="a declared property is required iff its JSON name is in `required`, and records that JSON name")
-    ok = False
-    for node, b in find("_Property(Element(), required=True, source=MV_k)", po):
-        kn = name_of(b["MV_k"])
-        for x in walk_own(po.body):
-            if isinstance(x, ast.comprehension) and norm(x.target) == kn and has("MV_s.get('required', MV__)", x.iter):
-                ok = all(has(f"_parse_attribute_name({kn}) not in MV_p", c) for c in x.ifs)
-    res.check(ok, po, "synthetic required properties", reason="every required name without a declared property gets a synthetic "
+    ok = None
+    for b in builders(view(po, ctx.prog, keep=("properties",)).body):
+        if b.kind != "dict" or not has("MV_s.get('required', MV__)", b.iter) or not isinstance(b.target, ast.Name):
+            continue
+        kn = b.target.id
+        val_ok = match(_parse(f"_Property(Element(), required=True, source={kn})"), b.elt) is not None
+        key_ok = b.key is not None and norm(b.key) == f"_parse_attribute_name({kn})"
+        gt = b.guard_texts()
+        guard_ok = len(gt) == 1 and (gt[0].startswith(f"not _parse_attribute_name({kn}) in ") or gt[0].startswith(f"_parse_attribute_name({kn}) not in "))
+        ok = bool(val_ok and key_ok and guard_ok) if (val_ok or key_ok) else ok
+    res.judge(ok, po, "synthetic required properties", reason="every required name without a declared property gets a synthetic "
                                                               "required property keyed by the same mapped name")
 
 
@@ -896,29 +914,30 @@ def t11(ctx, res):
 def t12(ctx, res):
     dd = ctx.func("_ParseState.dedupe")
     o = dd.params[1].name
-    loops = [n for n in walk_own(dd.body) if isinstance(n, ast.For)]
-    ok = False
+    vb = view(dd, ctx.prog).body
+    loops = [n for n in walk_own(vb) if isinstance(n, ast.For)]
+    verdict = None
     detail = {}
     if len(loops) == 1:
         lp = loops[0]
         e = norm(lp.target)
-        it_ok = has("self.seen[MV_n]", lp.iter) and not isinstance(lp.iter, ast.Call)
-        body_ok = len(lp.body) == 1 and isinstance(lp.body[0], ast.If) and not lp.body[0].orelse
-        if body_ok:
-            t = lp.body[0].test
-            detail["test"] = norm(t)
-            eq = isinstance(t, ast.Compare) and len(t.ops) == 1 and isinstance(t.ops[0], ast.Eq) and \
-                {norm(t.left), norm(t.comparators[0])} == {o, e}
-            ret = has(f"return {e}", lp.body[0].body)
-            ok = it_ok and eq and ret
-    res.check(ok, dd, "for existing in self.seen[name]: if object_type == existing: return existing", detail=detail,
+        it_ok = has(f"self.seen[{o}.__name__]", lp.iter) and isinstance(lp.iter, ast.Subscript)
+        paths = [p for p in __import__("sa.paths", fromlist=["enumerate_paths"]).enumerate_paths(lp.body) if p.exit == "return"]
+        detail["returns"] = [(" and ".join(norm(t) for t, pol in p.conds if not isinstance(t, str)), norm(p.exit_node.value)) for p in paths]
+        if it_ok and len(paths) == 1 and norm(paths[0].exit_node.value) == e:
+            conds = [(t, pol) for t, pol in paths[0].conds if not isinstance(t, str)]
+            if len(conds) == 1 and conds[0][1] and isinstance(conds[0][0], ast.Compare) and len(conds[0][0].ops) == 1 \
+                    and isinstance(conds[0][0].ops[0], ast.Eq) and {norm(conds[0][0].left), norm(conds[0][0].comparators[0])} == {o, e}:
+                verdict = True
+            else:
+                verdict = False
+        elif it_ok and not paths:
+            verdict = False
+    res.judge(verdict, dd, "for existing in self.seen[name]: if object_type == existing: return existing", detail=detail,
               reason="every earlier class of the same title is compared by (structural) equality alone - an extra "
                      "pre-filter or a narrower scan creates duplicate classes for one object schema")
-    nm = None
-    for node, b in find(f"MV_n = {o}.__name__", dd):
-        nm = name_of(b["MV_n"])
-    res.check(nm is not None and has(f"self.seen[{nm}].append({o})", dd) and has(f"return {o}", dd), dd,
-              "new classes are recorded under their title and returned", reason="later occurrences can find them")
+    rec_ok = has(f"self.seen[{o}.__name__].append({o})", vb) and has(f"return {o}", vb)
+    res.judge(True if rec_ok else None, dd, "new classes are recorded under their title and returned", reason="later occurrences can find them")
 
 
 # --------------------------------------------------------------------- T13
